@@ -58,7 +58,7 @@ def maxOf : List Rat → Rat
 /-- the statistic a field name states, of the sample `xs` -/
 def statOf (xs : List Rat) (name : String) : Option SVal :=
   if name == "mean" then some (.exact (mean xs))
-  else if name == "median" then some (.exact (quantile xs (1/2)))
+  else if name == "median" then some (.exact (median xs))
   else if name == "sd" then some (.sqrt (variance xs))
   else if name == "min" then some (.exact (minOf xs))
   else if name == "max" then some (.exact (maxOf xs))
@@ -172,32 +172,23 @@ def Kind.isAta : Kind → Bool | .ata _ => true | .ataIncr _ => true | _ => fals
 
 def exactOf : SVal → Option Rat | .exact q => some q | .sqrt _ => none
 
-def chain (le : Rat → Rat → Bool) : List Rat → Bool
-  | [] => true
-  | [_] => true
-  | a :: b :: rest => le a b && chain le (b :: rest)
-
-/-- insertion sort of (level, value) pairs by level -/
-def insertByLevel (p : Rat × Rat) : List (Rat × Rat) → List (Rat × Rat)
-  | [] => [p]
-  | q :: rest => if p.1 ≤ q.1 then p :: q :: rest else q :: insertByLevel p rest
-
-/-- the quantile entries of a summary read by their NAMES are monotone in the level and lie
-between `min` and `max` (and so do mean and median) -/
-def summaryMonotone (tol : Rat) (s : Summary) : Bool :=
-  let qs := s.stats.filterMap fun e => do
+/-- the quantile entries of a summary read by their NAMES: (stated level, value) -/
+def namedQuantiles (s : Summary) : List (Rat × Rat) :=
+  s.stats.filterMap fun e => do
     let l ← parseLevel e.1
     let v ← exactOf e.2
     pure (l, v)
-  let sorted := qs.foldl (fun acc p => insertByLevel p acc) []
-  let le := fun (a b : Rat) => decide (a ≤ b) || approx tol a b
-  chain le (sorted.map (·.2)) &&
+
+/-- `a ≤ b` up to the tolerance -/
+def leTol (tol a b : Rat) : Bool := decide (a ≤ b) || approx tol a b
+
+/-- the quantile entries of a summary, read by their NAMES, are monotone in the stated level
+(for every two of them: level ≤ level' ⇒ value ≤ value') and lie between `min` and `max` -/
+def summaryMonotone (tol : Rat) (s : Summary) : Bool :=
+  let qs := namedQuantiles s
+  (qs.all fun p => qs.all fun p' => !decide (p.1 ≤ p'.1) || leTol tol p.2 p'.2) &&
   (match (s.stats.lookup "min").bind exactOf, (s.stats.lookup "max").bind exactOf with
-   | some lo, some hi =>
-     (qs.all fun p => le lo p.2 && le p.2 hi) &&
-     (["mean", "median"].all fun n => match (s.stats.lookup n).bind exactOf with
-       | some v => le lo v && le v hi
-       | none => true)
+   | some lo, some hi => qs.all fun p => leTol tol lo p.2 && leTol tol p.2 hi
    | _, _ => true)
 
 def monotoneOk (tol : Rat) (recs : List Record) : Bool :=
